@@ -107,7 +107,8 @@ class UpdateReferences:
     if not hasattr(oldref, "is_complement"):
       return False
     if oldref.is_complement(newref):
-      return True
+      # (a link whose two forms coincide keeps its direction)
+      return not oldref.is_same(newref)
     if gfapy.is_placeholder(oldref.overlap) or \
        gfapy.is_placeholder(newref.overlap):
       # a virtual link created by a path has no overlap: compare the ends
